@@ -359,6 +359,26 @@ def l1_lifecycle(pid, tier, seed):
     return out
 
 
+def l1_conn(pid, tier, seed):
+    """exhaustive TLC run of Conn.tla (users of the stream, conn_mtx, reconnect_op, endpoint rotation, backoff, run / cancel /
+    async_disconnect in every order); Conn.nostale.cfg (reconnect_op without its stale-stream test) MUST violate
+    NoReconnectWhileHealthy.  spec/TraceConn.tla folds the same transition relation over every recorded trace."""
+    out = dict(name="L1 Conn.tla", states=0, transitions=0, violations=0, runs=[], samples=[])
+    for cfg in ["Conn.cfg"] + (["Conn.thorough.cfg"] if tier == "thorough" else []):
+        r = run_model("Conn.tla", cfg, ["Conn.tla"], workers=8)
+        out["states"] += r["distinct"]; out["transitions"] += r["generated"]
+        out["runs"].append({k: r[k] for k in ("cfg", "generated", "distinct", "depth", "violated", "wall", "cached")})
+        for inv in r["violated"]:
+            out["violations"] += 1
+            log("VIOLATION property=%s replay=%s model=%s invariant=%s" % (pid, r["replay"], cfg, inv))
+    r = run_model("Conn.tla", "Conn.nostale.cfg", ["Conn.tla"], workers=8)
+    out["runs"].append({k: r[k] for k in ("cfg", "generated", "distinct", "depth", "violated", "wall", "cached")})
+    if not r["violated"]:
+        raise CheckError("model self-test: Conn.nostale.cfg (no stale-stream test) was NOT caught by the model invariants")
+    out["samples"].append(dict(model="Conn.tla", note="2-3 brokers x 2 endpoints, reader and writer, losses, failures, run/cancel/disconnect"))
+    return out
+
+
 # ----------------------------------------------------------------------------- ASan pass over conformant families
 def asan_pass(families, sizes=(500, 6000)):
     """returns a stage running the given scenario families on the client built with ASan+UBSan: a sanitizer report, a crash
